@@ -52,14 +52,25 @@ Fixpoint remove_nth (j : nat) (l : list nat) : list nat :=
 Record config := mkConfig {
   nthr : nat;                      (* number of threads; any *)
   psize : nat;                     (* size of the pool (ThreadSafeVector::_size); any *)
-  dep0 : nat -> option nat;        (* Task::_dependency[0] of task k (lock index) *)
-  dep1 : nat -> option nat;        (* Task::_dependency[1] *)
+  dep0 : nat -> option nat;        (* Task::_dependency[0] of task k (lock index): set_dependency *)
+  xdep1 : nat -> option nat;       (* the lock handed to set_extra_dependency for task k *)
+  dedup : bool;                    (* true: set_extra_dependency as it is now (a second dependency equal to
+                                      the first is dropped, fix of D2); false: the pinned commit (stored as is) *)
   cur0 : N;                        (* initial value of the pool cursor (0 in the code; any value
                                       lets the correspondence reach the 2^64 wrap) *)
   ctr0 : nat -> N;                 (* initial values of the AtomicValue counters *)
   lfc0 : nat -> N;                 (* initial values of the LockFree::add targets *)
   mx0 : nat -> N                   (* initial values of the AtomicValue variables used with max() *)
 }.
+
+(* Task::_dependency[1] as stored by set_dependency(..); set_extra_dependency(..):
+     _dependency[1] = (dependency != _dependency[0]) ? dependency : nullptr; *)
+Definition dep1 (cfg : config) (k : nat) : option nat :=
+  match xdep1 cfg k with
+  | None => None
+  | Some l1 =>
+    if dedup cfg && (match dep0 cfg k with Some l0 => Nat.eqb l0 l1 | None => false end) then None else Some l1
+  end.
 
 (* the locks lock_dependency takes, in order (a null first dependency means: no locks at all) *)
 Definition deps (cfg : config) (k : nat) : list nat :=
